@@ -189,6 +189,14 @@ impl CacheBuffer {
     /// Reserve capacity for buffer
     pub fn reserve(&mut self, capacity: usize) {
         self.data_buffer.reserve(capacity);
+        // `data_slice` points into `data_buffer` for the owning buffer types: follow a possible reallocation
+        if matches!(self.buffer_type, BufferType::Copied | BufferType::MultiPage) {
+            if let Some(old) = self.data_slice {
+                let len = old.len().min(self.data_buffer.len());
+                let data_ptr = self.data_buffer.as_ptr();
+                self.data_slice = Some(unsafe { std::slice::from_raw_parts(data_ptr, len) });
+            }
+        }
     }
     
     /// Get buffer capacity
